@@ -26,6 +26,9 @@ pub struct Case {
   pub scan: bool,
   pub threads: Vec<usize>,
   pub sched: Vec<u64>,
+  /// pass `--follow`: symbolic links are followed, so a dangling one is an I/O error of the walk
+  #[serde(default)]
+  pub follow: bool,
 }
 
 #[derive(Clone, Debug)]
@@ -84,6 +87,7 @@ pub fn interpret(ch: &Choice, _st: &mut Stats) -> Option<Case> {
   Some(Case {
     files,
     scan: ch.scan,
+    follow: ch.sched.first().map(|s| s % 3 == 1).unwrap_or(false),
     threads: ch.threads.iter().map(|t| THREADS[*t as usize % THREADS.len()]).collect(),
     sched: ch.sched.clone(),
   })
@@ -162,7 +166,11 @@ fn run_sg_stall(case: &Case, dir: &TempDir, target: &str, threads: usize, sched:
   } else {
     vec!["run".into(), "--pattern=foo($A)".into(), "-l".into(), "js".into()]
   };
-  args.extend(["--json=stream".to_string(), "--inspect".into(), "summary".into(), "-j".into(), j, target.to_string()]);
+  args.extend(["--json=stream".to_string(), "--inspect".into(), "summary".into(), "-j".into(), j]);
+  if case.follow {
+    args.push("--follow".into());
+  }
+  args.push(target.to_string());
   let mut cmd = if unprivileged {
     let mut c = Command::new("setpriv");
     c.args(["--reuid=65534", "--regid=65534", "--clear-groups"]).arg(cli::sgv_path());
